@@ -20,14 +20,14 @@ CHECKS = {
             'Bounded time is decided by a CPU limit (8 s in the search, confirmed with 20 s); inputs are capped at 64 KiB; '
             'unknown hangs are minimised under a 3 s limit; the thorough tier adds an in-process libFuzzer target (fuzz/harness.cpp) as a '
             'coverage-guided candidate generator whose artifacts and new corpus entries are all re-judged out of process.', 'DESIGN.md §3 C06'),
-    'C01': ('translation_validation', 'Hypothesis-generated C, C++ and Java programs + compilable corpus files x single-option sweep / random / '
+    'C01': ('translation_validation', 'Hypothesis-generated C, C++, Java and Objective-C programs + compilable corpus files x single-option sweep / random / '
             'whole-family configs; differential oracle: gcc/g++ -O1 -S (javac -g:none class files) of output == of input, uncrustify exits 0',
-            'Grammar-generated C programs, C++ translation units and Java classes in random layouts and the ~330 corpus files that compile stand-alone are '
+            'Grammar-generated C programs, C++ translation units, Java classes and Objective-C root classes in random layouts and the ~330 corpus files that compile stand-alone are '
             'formatted under every whitespace / mod_ / cmt_ option singly at every enumerated or boundary value (thorough: all settings), '
             'random multi-option draws and whole-family settings, and 250-1500 enumerated brace shapes (nestings of brace-less / braced if, for, while around an inner if, with and without else) run under the brace options; the object code gcc / g++ emits for the output must be byte-identical to '
             'that for the input (for Java: the class files javac -g:none writes) and uncrustify must accept the program.',
-            'gcc/g++ without -g emit no line information; generated programs avoid layout-dependent constructs; Objective-C is not compiled '
-            'in this revision, Java only for generated programs; mod_infinite_loop values that introduce `true` are not applied to C inputs.', 'DESIGN.md §3 C01'),
+            'gcc/g++ without -g emit no line information; generated programs avoid layout-dependent constructs; Java and Objective-C (clang, no Foundation) are '
+            'compiled for generated programs only; mod_infinite_loop values that introduce `true` are not applied to C inputs.', 'DESIGN.md §3 C01'),
     'C18': ('exploration', 'Hypothesis-generated block-structured C programs with per-line random indentation x indent options; closed-form '
             'oracle (column = 1 + depth * indent_columns, from the generator\'s depth annotation) + metamorphic invariance under re-indentation',
             'Grammar-generated C programs and line programs in C++ / Java / C (try/catch/finally chains, range-for, switch, unbraced '
